@@ -290,7 +290,10 @@ def rule_scope(ctx, rep):
                         if fs and fs[-1][3] == aid and fs[-1][2] == fl["name"] and len([x for x in s[1][1] if isinstance(x, list)]) == len(fs):
                             events.setdefault(b.f["name"], set()).add("assign")
                             sites[b.f["name"]] = b
-            in_visit = {m: k for m, k in events.items() if m.startswith(("visit_", "fold_")) or m in ("insert", "add", "connect")}
+            # methods of a type that implements Visitor/Fold run during the traversal (helpers called from visit_ methods included)
+            is_visitor = any((bb.f.get("impl") or {}).get("self", "").split("<")[0] == aid and (bb.f.get("impl") or {}).get("trait_def") in
+                             ("ironplc_dsl::visitor::Visitor", "ironplc_dsl::fold::Fold") for bb in ctx.prog.bodies.values() if bb.f["crate"] == "ironplc_analyzer")
+            in_visit = {m: k for m, k in events.items() if m.startswith(("visit_", "fold_")) or m in ("insert", "add", "connect") or (is_visitor and m != "new")}
             if not in_visit:
                 continue
             inst = "%s.%s" % (short, fl["name"])
